@@ -64,6 +64,21 @@ cdef cppSense cppsense(object sense) except? cppSense.GE:
         raise RuntimeError(f"unexpected sense: {sense!r}")
 
 
+def _check_weight(weight, penalty):
+    # Make the same checks as ConstraintView.set_weight(), this lets us raise
+    # before we have added the constraint to the model.
+    # Returns whether the penalty is quadratic.
+    cdef bias_type _weight = weight
+
+    if _weight <= 0:
+        raise ValueError("weight must be a positive number or None")
+
+    if penalty not in ('linear', 'quadratic'):
+        raise ValueError('penalty should be "linear" or "quadratic"')
+
+    return penalty == 'quadratic'
+
+
 cdef class cyConstraintsView:
     cdef cyConstrainedQuadraticModel parent
 
@@ -163,6 +178,11 @@ cdef class cyConstrainedQuadraticModel:
         constraint.set_sense(cppsense(sense))
         constraint.set_rhs(rhs)
 
+        if weight is not None and _check_weight(weight, penalty):
+            for vi in range(constraint.num_variables()):
+                if self.cppcqm.vartype(constraint.variables()[vi]) not in (cppVartype.BINARY, cppVartype.SPIN):
+                    raise ValueError("quadratic penalty only allowed if the constraint has binary variables")
+
         self.cppcqm.add_constraint(move(constraint))
         label = self.constraint_labels._append(label)
         assert(self.cppcqm.num_constraints() == self.constraint_labels.size())
@@ -173,10 +193,16 @@ cdef class cyConstrainedQuadraticModel:
         return label
 
     def add_constraint_from_model(self, cyQMBase model, sense, bias_type rhs, label, bint copy, weight, penalty):
+        cdef Py_ssize_t vi
+
+        if weight is not None and _check_weight(weight, penalty):
+            for vi in range(model.num_variables()):
+                if model.base.vartype(vi) not in (cppVartype.BINARY, cppVartype.SPIN):
+                    raise ValueError("quadratic penalty only allowed if the constraint has binary variables")
+
         # get a mapping from the model's variables to ours
         cdef vector[index_type] mapping
         mapping.reserve(model.num_variables())
-        cdef Py_ssize_t vi
         for vi in range(model.num_variables()):
             v = model.variables.at(vi)
             if self.variables.count(v):
